@@ -22,6 +22,7 @@ import json
 import os
 import shutil
 import sqlite3
+import sys
 import tempfile
 
 import lz4.frame
@@ -80,6 +81,10 @@ TARGETS = [
     ("json", "jsonfile:///simfs/p%2Fq.jsonl"),
     ("split-stream", "split:///simfs/s%20t.records?count={count}&suffix-length={sl}"),
 ]
+# standard output as the target: the writer must not close it, but everything written must have reached it
+# (at the latest when the interpreter flushes sys.stdout on exit) once the writer is closed
+STDOUT_TARGETS = [("stream", "stream://"), ("stream", "stream://-"), ("avro", "avro://"), ("json", "jsonfile://"), ("json", "jsonfile://-"), ("csv", "csvfile://")]
+STDOUT_EXT = {"stream": ".records", "avro": ".avro", "json": ".json", "csv": ".csv"}
 TERMINATORS = ["c", "cc", "fc", "X", "R", "Xc"]  # c close, f flush, X with-exit, R with body raising then exit
 BODIES = [""]
 for _n in range(1, 6):
@@ -128,6 +133,8 @@ def generate(rng, tier, index):
         return gen_archive(rng, tier)
     # random longer histories, biased to split arithmetic
     tkind, uri = rng.choice(TARGETS + [t for t in TARGETS if t[0].startswith("split")] * 3)
+    if rng.random() < 0.06:
+        tkind, uri = rng.choice(STDOUT_TARGETS)  # the documented way of writing to standard output
     count = rng.choice([1, 2, 3, 4, 5, 7])
     sl = rng.choice([1, 2, 3])
     n = rng.randrange(0, 3 * count + 3)
@@ -166,6 +173,8 @@ def gen_archive(rng, tier):
             op = {"op": "write", "s": rng.choice(["a", "b", "c", "A", "%41", "a b"])}
             if rng.random() < 0.25:
                 op["skew_us"] = rng.choice([-3600, 3600, -86400, 7200, -1]) * 1000000  # record stamped by another host
+            if rng.random() < 0.12:
+                op["tz_min"] = rng.choice([120, 345, -480, 60, -30])  # stamped in a local time zone: `ts` is record._generated as it is
             ops.append(op)
         elif r < 0.85:
             dts = [0, 1, 400000, 3600 * 1000000, -3600 * 1000000] if burst else DELTAS_US
@@ -350,7 +359,11 @@ def run_history(plan, w, viols, states):
     w.fs.buffer_size = plan.get("buffer_size", 8192)
     w.sim_cwd = "/simfs/cwd"
     w.fs.makedirs("/simfs/cwd/sub", exist_ok=True)
-    if plan.get("fd1"):
+    so_ino = None
+    if _is_stdout_uri(uri):
+        so_ino = w.set_stdout()
+        w.probe("target-is-stdout")
+    if plan.get("fd1") and so_ino is None:
         w.fs.next_fd = 1  # a daemonised process: stdout was closed, the first file opened gets descriptor 1
         w.probe("output-file-is-fd-1")
     pool = Pool(plan["pool"])
@@ -467,10 +480,10 @@ def run_history(plan, w, viols, states):
                 shape.append({"close": "c", "exit": "X", "raise_exit": "R"}[k])
                 closes += 1
                 if closes == 1:
-                    bytes_at_first_close = snapshot_targets(w, kind, scratch)
+                    bytes_at_first_close = snapshot_targets(w, kind, scratch, so_ino)
                 elif closes >= 2:
                     w.probe("double-close")
-                    now = snapshot_targets(w, kind, scratch)
+                    now = snapshot_targets(w, kind, scratch, so_ino)
                     if now != bytes_at_first_close:
                         add(_viol("C17.double-close", "closing a %s writer a second time changed its output (%d files before, %d after)" % (kind, len(bytes_at_first_close), len(now))))
                 closed = True
@@ -484,7 +497,7 @@ def run_history(plan, w, viols, states):
                 nb_files[pth] = w.fs.files.pop(pth)
         states.add("%s|%s" % (kind, "".join(shape)[:12]))
         w.fs.inject.clear()
-        check_history(plan, w, kind, uri, scratch, model, shape, add, optional)
+        check_history(plan, w, kind, uri, scratch, model, shape, add, optional, so_ino)
         for pth, ino in nb_files.items():
             w.fs.files[pth] = ino
             res = decode_target(w, kind, pth, bytes(ino.data))
@@ -498,17 +511,42 @@ def run_history(plan, w, viols, states):
             shutil.rmtree(scratch, ignore_errors=True)
 
 
-def snapshot_targets(w, kind, scratch):
+def snapshot_targets(w, kind, scratch, so_ino=None):
+    if so_ino is not None:
+        try:
+            sys.stdout.flush()
+        except Exception:  # noqa: BLE001
+            pass
+        return {"<stdout>": bytes(so_ino.data)}
     if kind == "sqlite":
         p = os.path.join(scratch, "o.db")
         return {"o.db": open(p, "rb").read() if os.path.exists(p) else None}
     return {p: w.fs.get(p) for p in w.fs.listing()}
 
 
-def check_history(plan, w, kind, uri, scratch, model, shape, add, optional=()):
+def _is_stdout_uri(uri):
+    return "://" in uri and uri.split("://", 1)[1].split("?", 1)[0] in ("", "-")
+
+
+def check_history(plan, w, kind, uri, scratch, model, shape, add, optional=(), so_ino=None):
     want_ids = Want([n for n, _ in model], optional)
     model = [m for m in model]
     hist = "".join(shape)
+    if so_ino is not None:
+        # what the process leaves on its standard output: the interpreter flushes sys.stdout at exit, nothing else
+        try:
+            sys.stdout.flush()
+        except Exception as e:  # noqa: BLE001
+            add(_viol("C17.close-raises", "standard output cannot be flushed after the %s writer was closed: %s: %s (history %s)" % (kind, type(e).__name__, e, hist)))
+            return
+        stray = created_in_order(w)
+        if stray:
+            add(_viol("C17.placement", "%s writer on standard output created files: %s" % (kind, short(stray, 80)), {"kind": kind, "history": hist}))
+        path = "/simfs/stdout-capture" + STDOUT_EXT[kind]
+        w.fs.put(path, bytes(so_ino.data))
+        res = decode_target(w, kind, path, bytes(so_ino.data))
+        judge_file(add, kind, hist, want_ids, model, res, w, empty_ok_kinds=True)
+        return
     if kind == "sqlite":
         p = os.path.join(scratch, "o.db")
         try:
@@ -761,6 +799,9 @@ def run_archive(plan, w, viols, states):
             if op.get("skew_us"):
                 rec._generated = w.clock.now() + _dt.timedelta(microseconds=op["skew_us"])
                 w.probe("skewed-stamp")
+            if op.get("tz_min"):
+                rec._generated = rec._generated.astimezone(_dt.timezone(_dt.timedelta(minutes=op["tz_min"])))
+                w.probe("stamp-with-utc-offset")
             gen_ts = rec._generated
             path = expected_path(plan, root, name, gen_ts, op["s"])
             before = len([e for e in w.fs.events if e[0] == "rename"])
